@@ -132,6 +132,6 @@ static int Record(const vh::Args& args) {
 
 int main(int argc, char** argv) {
   { vh::Args args(argc, argv); if (args.has("record")) return vh::RunRecorder(args.get("trace"), args.get("out"), [&]() { return Record(args); }); }
-  vh::IsoOptions iso; iso.faultProperty = "C15"; iso.batch = 4000; iso.watchdogSeconds = 20;
+  vh::IsoOptions iso; iso.faultProperty = "C15"; iso.batch = 4000; iso.watchdogSeconds = 90;
   return vh::Main(argc, argv, Handle, true, iso);
 }
